@@ -47,6 +47,8 @@ fn lens(e: &Expr) -> BTreeSet<usize> {
             let mut acc = one(0);
             let mut out = BTreeSet::new();
             let mut k = 0usize;
+            // `{lo,hi}` with lo > hi: the VM runs the body exactly hi times
+            let lo = &(*lo).min(*hi);
             loop {
                 if k >= *lo {
                     out.extend(acc.iter().cloned());
@@ -122,7 +124,7 @@ fn grammar() -> Vec<String> {
     for _ in 0..2 {
         let mut next = vec![];
         for a in lvl.iter().take(14) {
-            for q in ["*", "+", "?", "{2}", "{2,3}", "{0}", "{18446744073709551615}", "{9223372036854775808}"] {
+            for q in ["*", "+", "?", "{2}", "{2,3}", "{0}", "{1,0}", "{3,2}", "{18446744073709551615}", "{9223372036854775808}"] {
                 next.push(format!("(?:{}){}", a, q));
             }
             next.push(format!("({})", a));
